@@ -1,7 +1,7 @@
 SPECIFICATION TSpec
 CONSTANTS Cids <- TraceCids
           Devs = @DEVS@
-INVARIANTS TypeOK RejectedNeverTouched OnlyRequested GetBlockExact SelfCertified CachedBeforeHandOff LocalNotFetched DevReport
+INVARIANTS TypeOK RejectedNeverTouched OnlyRequested GetBlockExact SelfCertified CachedBeforeHandOff ReadyCached LocalNotFetched DevReport
 CONSTRAINT TraceConstraint
 POSTCONDITION TracePost
 CHECK_DEADLOCK FALSE
